@@ -124,6 +124,8 @@ type fakeIDP struct {
 	profile               map[string]interface{} // userinfo endpoint JSON
 	// fault hook: return true when the hook answered the request itself
 	fault           func(endpoint string, n int, w http.ResponseWriter, r *http.Request) bool
+	// transform hook: the endpoint's real answer is produced first, then its body is rewritten (truncation / byte-flip sweeps)
+	transform func(endpoint string, status int, body []byte) []byte
 	epCount         map[string]int
 	pkceFailures    []string
 	rawNonceFor     func(hashed string) string
@@ -187,6 +189,26 @@ func (p *fakeIDP) serve(w http.ResponseWriter, r *http.Request) {
 	if fault != nil && fault(ep, n, w, r) {
 		return
 	}
+	p.mu.Lock()
+	tr := p.transform
+	p.mu.Unlock()
+	if tr != nil {
+		rec := httptest.NewRecorder()
+		p.dispatch(rec, r, ep, form)
+		nb := tr(ep, rec.Code, rec.Body.Bytes())
+		for k, vs := range rec.Header() {
+			if k != "Content-Length" {
+				w.Header()[k] = vs
+			}
+		}
+		w.WriteHeader(rec.Code)
+		w.Write(nb)
+		return
+	}
+	p.dispatch(w, r, ep, form)
+}
+
+func (p *fakeIDP) dispatch(w http.ResponseWriter, r *http.Request, ep string, form url.Values) {
 	switch ep {
 	case "/.well-known/openid-configuration":
 		w.Header().Set("Content-Type", "application/json")
